@@ -48,6 +48,19 @@ def g_lcase(case):
             ops.append("LPop %s" % g_Z(op[1]))
         elif k == 'iter':
             ops.append("LIter")
+        elif k == 'itermut':
+            mu = op[2]
+            if mu[0] == 'append':
+                table, vc = label_tree(mu[1], table, vc)
+                gm = "(MuAppend %s)" % g_json(mu[1], table)
+            elif mu[0] == 'del':
+                gm = "(MuDel %s)" % g_Z(mu[1])
+            elif mu[0] == 'pop':
+                gm = "(MuPop %s)" % g_Z(mu[1])
+            else:
+                table, vc = label_tree(mu[2], table, vc)
+                gm = "(MuSet %s %s)" % (g_Z(mu[1]), g_json(mu[2], table))
+            ops.append("LIterMut %s %s" % (g_nat(op[1]), gm))
         elif k == 'keep':
             ops.append("LKeep %s" % g_lpred(op[1], table))
         elif k == 'remove':
@@ -84,10 +97,20 @@ def gen_lcase(rng):
     ops = []
     cur = n
     for _ in range(rng.choice([1, 3, 5, 8, 12])):
-        k = rng.choice(['len', 'get', 'set', 'del', 'in', 'append', 'append', 'pop', 'iter', 'keep', 'remove'])
+        k = rng.choice(['len', 'get', 'set', 'del', 'in', 'append', 'append', 'pop', 'iter', 'keep', 'remove', 'itermut'])
         fresh = rng.random() < 0.5
         idx = rng.choice(list(range(-cur - 2, cur + 3)))
-        if k == 'len' or k == 'iter':
+        if k == 'itermut':
+            # a live iterator and a mutation through the view in between (C19-m11: iterating over a snapshot)
+            mk = rng.choice(['append', 'del', 'pop', 'set'])
+            mu = {'append': lambda: ('append', gen_elem(rng)), 'del': lambda: ('del', idx), 'pop': lambda: ('pop', idx),
+                  'set': lambda: ('set', idx, gen_elem(rng))}[mk]()
+            op = (k, rng.randrange(cur + 2), mu, fresh)
+            if mk == 'append':
+                cur += 1
+            elif mk in ('del', 'pop') and -cur <= idx < cur:
+                cur -= 1
+        elif k == 'len' or k == 'iter':
             op = (k, fresh)
         elif k in ('get', 'del', 'pop'):
             op = (k, idx, fresh)
